@@ -486,3 +486,9 @@ package main
 //@   atcall encoding/json.Marshal requires (v any) :: isType[openidConnectUserInfo](v) ==> asType[openidConnectUserInfo](v).Subject == claimsBearer(ghostTokRaw).Username && asType[openidConnectUserInfo](v).Username == claimsBearer(ghostTokRaw).Username  #C12.userinfo-same-user @C12
 // package-level error values are created by errors.New at initialisation and never reassigned
 //@ axiom ErrorIDPClientNotFound != nil
+
+// ---- C16: shared in-memory session and challenge state is accessed only under its mutex ----------------------
+// (lock-set discipline: every read and write of these maps, and of their contents, needs the mutex held; taking the
+// mutex forgets what was known about them)
+//@ guarded_by RuntimeState.Mutex : RuntimeState.vipPushCookie RuntimeState.localAuthData RuntimeState.pendingOauth2  #C16.state-mutex @C16
+//@ guarded_by RuntimeState.totpLocalTateLimitMutex : RuntimeState.totpLocalRateLimit  #C16.totp-mutex @C16
